@@ -6,6 +6,7 @@
 //	Pools.v      facts about the goroutine worker pools of tree.Compare, tree.CompareWeighted,
 //	             support.FBP, support.TBE (captured variables assigned in workers, exits without Done)
 //	Globals.v    every package-level variable of the library packages with the functions that read / write it
+//	Narrow.v     per declaration of the library packages, the spelled-out numeric types narrower than 64 bits
 //
 // It is part of the trusted base; its tables are cross-checked at run time by the harness.
 package main
@@ -66,4 +67,5 @@ func main() {
 	writeIfChanged(filepath.Join(*out, "MapRanges.v"), genMapRanges(pkgs, *repo))
 	writeIfChanged(filepath.Join(*out, "Pools.v"), genPools(byPath, mod, *repo))
 	writeIfChanged(filepath.Join(*out, "Globals.v"), genGlobals(pkgs, mod, *repo))
+	writeIfChanged(filepath.Join(*out, "Narrow.v"), genNarrow(pkgs, mod, *repo))
 }
